@@ -636,6 +636,40 @@ func (f *FuncCtx) callSpec(sf *SpecFunc, pc *PkgContracts, e *ast.CallExpr, env 
 			return f.boolVal("true")
 		}
 	}
+	rec := sf.Body != "" && strings.Contains(sf.Body, sf.Name+"(")
+	if sf.Body != "" && !rec {
+		// non-recursive spec functions are macros: expanded at the use site with the parameters bound to the
+		// arguments and evaluated in the current state (so they may read the heap, old(...) etc.)
+		if len(e.Args) != len(sf.Params) {
+			f.fail("spec %s: want %d args", sf.Name, len(sf.Params))
+			return f.boolVal("true")
+		}
+		if f.macroDepth > 12 {
+			f.fail("spec %s: macro expansion too deep", sf.Name)
+			return f.boolVal("true")
+		}
+		bound := map[string]Val{}
+		for i, a := range e.Args {
+			bound[sf.Params[i].Name] = f.coerce(f.specExpr(a, env), ptypes[i])
+		}
+		be, err := parseSpec(sf.Body)
+		if err != nil {
+			f.fail("spec %s: %v", sf.Name, err)
+			return f.boolVal("true")
+		}
+		saved := f.spec
+		nsc := *saved
+		nsc.bound = append(append([]map[string]Val{}, saved.bound...), bound)
+		nsc.pcs = pc
+		nsc.pkg = f.specPkgOf(pc)
+		nsc.nolocals = true
+		f.spec = &nsc
+		f.macroDepth++
+		body := f.coerce(f.specExpr(be, env), rt)
+		f.macroDepth--
+		f.spec = saved
+		return body
+	}
 	if !f.specDone[fn] {
 		f.specDone[fn] = true
 		var ps, psorts []string
@@ -657,19 +691,11 @@ func (f *FuncCtx) callSpec(sf *SpecFunc, pc *PkgContracts, e *ast.CallExpr, env 
 			saved := f.spec
 			f.spec = &specCtx{bound: []map[string]Val{bound}, pcs: pc, nolocals: true, pkg: f.specPkgOf(pc)}
 			empty := &Env{vars: map[types.Object]Val{}, names: map[string]Val{}, heap: map[string]string{}, pc: "true"}
-			rec := strings.Contains(sf.Body, sf.Name+"(")
-			if rec {
-				// declare first for recursion
-				f.specBusy[fn] = true
-			}
+			f.specBusy[fn] = true
 			body := f.specExpr(be, empty)
 			body = f.coerce(body, rt)
 			f.spec = saved
-			kw := "define-fun"
-			if rec {
-				kw = "define-fun-rec"
-			}
-			f.S.decls = append(f.S.decls, fmt.Sprintf("(%s %s (%s) %s %s)", kw, fn, strings.Join(ps, " "), f.S.SortOf(rt), body.T))
+			f.S.decls = append(f.S.decls, fmt.Sprintf("(define-fun-rec %s (%s) %s %s)", fn, strings.Join(ps, " "), f.S.SortOf(rt), body.T))
 		}
 	}
 	var args []string
